@@ -441,6 +441,7 @@ type Contract struct {
 	Serves    []string
 	Requires  []*Clause
 	Ensures   []*Clause
+	Exits     []*Clause // exit-state assertions that may mention locals
 	Modifies  []string // location specs; nil => default frame; "nothing" => none
 	HasModif  bool
 	Pure      bool
@@ -601,7 +602,7 @@ func clauseWord(l string) string {
 
 func isClauseStart(w string) bool {
 	switch w {
-	case "requires", "ensures", "modifies", "pure", "loop", "assume", "trusted", "noinline", "serves", "option", "induction", "uses", "trigger", "recv", "ghostdef":
+	case "requires", "ensures", "exit", "modifies", "pure", "loop", "assume", "trusted", "noinline", "serves", "option", "induction", "uses", "trigger", "recv", "ghostdef":
 		return true
 	}
 	return strings.HasPrefix(w, "ensures[") || strings.HasPrefix(w, "requires[")
@@ -797,6 +798,15 @@ func (db *SpecDB) parseDecl(d *rawDecl) error {
 			}
 			cl.Ord = len(c.Ensures) + 1
 			c.Ensures = append(c.Ensures, cl)
+		case "exit":
+			// exit-state assertion over parameters, results and function-level locals: checked at every return where all
+			// names it mentions are in scope; not part of the interface (callers do not see it)
+			cl, err := mk("exit", body)
+			if err != nil {
+				return err
+			}
+			cl.Ord = len(c.Exits) + 1
+			c.Exits = append(c.Exits, cl)
 		case "assume":
 			reason := ""
 			if k := strings.LastIndex(body, " because "); k >= 0 {
